@@ -72,6 +72,7 @@ pub fn region_pred(name: &str, cell: &crate::families::Cell) -> bool {
             let q = p[0].min(1.0 - p[0]);
             cell.ip[0] >= (1u64 << 53) && q > 0.0 && (n * q).sqrt() < 4096.0 * n * 2f64.powi(-52)
         }
+        "poisson_lambda_ge_4e18" => !p.is_empty() && p[0] >= 4e18,
         // Dirichlet<f32> on the gamma path (some alpha > 0.1) with every alpha below 0.2
         "dirichlet_f32_gamma_path_small_alpha" => {
             cell.ft == Ft::F32 && !p.is_empty() && p.iter().any(|&a| a > 0.1f32 as f64) && p.iter().all(|&a| a < 0.2)
@@ -226,6 +227,27 @@ impl Ctx {
                     None => false,
                 }
         })
+    }
+
+    /// verdict of a replay: VIOLATION line pointing at the replayed file (no evidence written)
+    pub fn finish_replay(&self, path: &str) -> i32 {
+        let vs = self.violations.lock().unwrap().clone();
+        let mut code = 0;
+        for v in &vs {
+            if !self.strict {
+                if let Some(f) = self.findings.iter().find(|f| f.matches(v)) {
+                    println!("KNOWN-FINDING: property={} {} [{}]", self.property, f.what, f.id);
+                    continue;
+                }
+            }
+            println!("VIOLATION property={} replay={}", self.property, path);
+            println!("  detail: {}", v.what);
+            code = 1;
+        }
+        if vs.is_empty() {
+            println!("replay of {path}: property held");
+        }
+        code
     }
 
     /// Print KNOWN-FINDING / VIOLATION lines, write replay files and evidence; return the exit code.
